@@ -529,12 +529,13 @@ func (c *compiler) arrayOperator(l interface{}, r interface{}, op string) (inter
 	var err error
 	switch op {
 	case "+":
+		if reflect.TypeOf(l).Kind() != reflect.Slice {
+			return nil, fmt.Errorf("cannot append to %T, only slices can be appended to", l)
+		}
 		elemType := reflect.TypeOf(l).Elem()
-		if elemType.Kind() != reflect.Interface {
-			t := reflect.ValueOf(r).Type()
-			if elemType != t {
-				err = fmt.Errorf("cannot append '%v' (untyped %s constant) as %s value in assignment", r, t, elemType)
-			}
+		t := reflect.ValueOf(r).Type()
+		if !t.AssignableTo(elemType) {
+			err = fmt.Errorf("cannot append '%v' (untyped %s constant) as %s value in assignment", r, t, elemType)
 		}
 		if err == nil {
 			return reflect.Append(reflect.ValueOf(l), reflect.ValueOf(r)), nil
